@@ -2,13 +2,12 @@
 package c04
 
 import (
-	"github.com/TheManticoreProject/Manticore/network/smb/smb_v10/message/commands/andx"
-	"github.com/TheManticoreProject/Manticore/network/smb/smb_v10/message/commands/codes"
 	"bytes"
 	"encoding/json"
 	"fmt"
+	"github.com/TheManticoreProject/Manticore/network/smb/smb_v10/message/commands/andx"
+	"github.com/TheManticoreProject/Manticore/network/smb/smb_v10/message/commands/codes"
 	"reflect"
-	"regexp"
 	"sort"
 	"strings"
 	"testing"
@@ -38,15 +37,13 @@ func build(c cmdCase) (smbgen.Cmd, smbgen.Entry, error) {
 	return cmd, e, nil
 }
 
-var numRe = regexp.MustCompile(`[0-9]+`)
-var hexRe = regexp.MustCompile(`0x[0-9a-fA-F]+`)
-
-func normErr(err error) string {
-	m := numRe.ReplaceAllString(hexRe.ReplaceAllString(err.Error(), "0xN"), "N")
-	if len(m) > 70 {
-		m = m[:70]
+// errKind names a failed stage without the error's wording: a reworded message or a different index in
+// a panic text must not look like a new defect. Only "returned an error" and "panicked" are told apart.
+func errKind(stage string, err error) string {
+	if strings.HasPrefix(err.Error(), "panic:") {
+		return stage + "-panic"
 	}
-	return m
+	return stage + "-error"
 }
 
 func normalize(v reflect.Value) interface{} {
@@ -129,11 +126,11 @@ func checkRoundtrip(c cmdCase) []vf.Finding {
 	}
 	enc, err := safeMarshal(cmd)
 	if err != nil {
-		return []vf.Finding{vf.F(c.Struct, "marshal-error:"+normErr(err), "%v", err)}
+		return []vf.Finding{vf.F(c.Struct, errKind("marshal", err), "%v", err)}
 	}
 	dec := smbgen.New(e)
 	if err := safeUnmarshal(dec, append([]byte{}, enc...)); err != nil {
-		return []vf.Finding{vf.F(c.Struct, "decode-error:"+normErr(err), "own encoding (%d bytes) rejected: %v", len(enc), err)}
+		return []vf.Finding{vf.F(c.Struct, errKind("decode", err), "own encoding (%d bytes) rejected: %v", len(enc), err)}
 	}
 	var fs []vf.Finding
 	cv, dv := reflect.ValueOf(cmd).Elem(), reflect.ValueOf(dec).Elem()
@@ -371,7 +368,7 @@ func checkOffsets(c offsetCase) []vf.Finding {
 	}
 	enc, err := safeMarshal(cmd)
 	if err != nil {
-		return []vf.Finding{vf.F(c.Base.Struct, "marshal-error:"+normErr(err), "%v", err)}
+		return []vf.Finding{vf.F(c.Base.Struct, errKind("marshal", err), "%v", err)}
 	}
 	dec := smbgen.New(e)
 	kind := "offset-field-used-as-pad-length"
@@ -451,11 +448,11 @@ func encodeWithAndX(c andxCase, cmdv, res uint8, off uint16) ([]byte, smbgen.Ent
 func checkAndXRoundtrip(c andxCase) []vf.Finding {
 	enc, e, err := encodeWithAndX(c, c.Command, c.Reserved, c.Offset)
 	if err != nil {
-		return []vf.Finding{vf.F(c.Base.Struct, "marshal-error:"+normErr(err), "%v", err)}
+		return []vf.Finding{vf.F(c.Base.Struct, errKind("marshal", err), "%v", err)}
 	}
 	dec := smbgen.New(e)
 	if err := safeUnmarshal(dec, append([]byte{}, enc...)); err != nil {
-		return []vf.Finding{vf.F(c.Base.Struct, "decode-error:"+normErr(err), "own encoding (%d bytes) rejected: %v", len(enc), err)}
+		return []vf.Finding{vf.F(c.Base.Struct, errKind("decode", err), "own encoding (%d bytes) rejected: %v", len(enc), err)}
 	}
 	var fs []vf.Finding
 	a := dec.GetAndX()
